@@ -59,7 +59,8 @@ def watchdog(seconds: float = 10.0):
         raise OpTimeout(f"operation exceeded {seconds}s")
 
     old = signal.signal(signal.SIGALRM, _h)
-    signal.setitimer(signal.ITIMER_REAL, seconds)
+    # re-firing: an exception raised inside a weakref/GC callback is swallowed ("Exception ignored"), so fire again
+    signal.setitimer(signal.ITIMER_REAL, seconds, 0.2)
     try:
         yield
     finally:
